@@ -46,6 +46,12 @@ CHECKS.update({
             'RadioDriver/RadioManager/Crazyradio stack onto a fake dongle; scans run against generated worlds; every URI is offered to every '
             'driver class; malformed/unknown URIs go through a real Crazyflie.open_link.',
             'Fake dongle models the vendor requests the driver uses; pyserial/prrt absent in this image.'),
+    'C12': ('fault_enumeration', 'DESIGN.md 3/C12', 'runner',
+            'Hypothesis-generated geometries/image lengths/fault plans + exhaustive enumeration of all fault plans up to a bound, real Bootloader/Cloader over a scripted link to a target model',
+            'All reply-fault plans over {ok, lost, wrong, negative, late} up to length 4 (thorough 6, plus lost-command) are enumerated for fixed '
+            'images and random plans/geometries are searched beyond; the target model records every buffer byte and flash page, so content, '
+            'page range, per-byte upload coverage, message size, retry bound and abort behaviour are all checked.',
+            'Bootloader target model (page buffers, flash-write semantics, late reply = executed) is my restatement of the protocol.'),
 })
 
 ALL = ['C%02d' % i for i in range(1, 21)]
